@@ -266,6 +266,17 @@ shape("run_add_failure", "src/codemodder/file_context.py", ["C10", "C15"],
       doc="FileContext.add_failure marks every finding unfixed with line 0")
 
 
+shape("run_find_semgrep_results", "src/codemodder/codemodder.py", ["C09"],
+      "find_semgrep_results_shape", "find_semgrep_form", "OneRunAllRules", ["find_semgrep_results"],
+      doc="find_semgrep_results: one semgrep run with the rules of every semgrep-detected codemod of the run")
+shape("run_semgrep_detector", "src/codemodder/context.py", ["C09", "C10"],
+      "semgrep_scope_shape", "semgrep_scope_form", "PrefilterFilesOrDirectory", ["CodemodExecutionContext.semgrep_results_for_rule"],
+      doc="semgrep_results_for_rule: the prefilter's files for the rule (pinned form; form that drops vanished files), [] when there is no prefilter")
+shape("run_semgrep_detector_apply", "src/codemodder/codemods/semgrep.py", ["C09", "C10"],
+      "semgrep_detector_shape", "semgrep_detector_form", "ScanPrefilterFiles", ["SemgrepRuleDetector.apply"],
+      doc="SemgrepRuleDetector.apply: semgrep over semgrep_results_for_rule(id) (or the directory)")
+
+
 def _prefilter_form(tree, repo):
     """codemodder.run: `context.semgrep_prefilter_results = find_semgrep_results(...)` exactly once, before the single
     call of apply_codemods; nothing else assigns it in run / apply_codemods / base_codemod._apply."""
